@@ -344,6 +344,29 @@ class World:
                 out["family"] = out["action"] = "EXC " + type(e).__name__
         return out
 
+    def window_readers(self, data):
+        """Readers whose bytes are a WINDOW of a larger buffer (a memoryview slice, a slice() of another reader): what lies outside
+        the window is not part of the input."""
+        pre, post = b"\xff\x01\xfe", b"\xff\x02"
+        data = bytes(data)
+        buf = bytearray(pre + data + post)
+        yield "memoryview window", self.reader_mod.EoReader(memoryview(buf)[len(pre):len(pre) + len(data)])
+        yield "slice of a larger reader", self.reader_mod.EoReader(pre + data + post).slice(len(pre), len(data))
+
+    def window_check(self, cls, data, ch0, ref):
+        """ref = (exc, obj, pos, remaining) observed with a reader over exactly these bytes; returns '' or a description."""
+        for how, r2 in self.window_readers(data):
+            r2.chunked_reading_mode = bool(ch0)
+            got = ["", NONE, None, None]
+            try:
+                got[1] = self.project(cls.deserialize(r2))
+            except Exception as e:
+                got[0] = self.exc_name(e)
+            got[2], got[3] = r2.position, r2.remaining
+            if got[0] != ref[0] or got[1] != ref[1] or got[2] != ref[2] or got[3] != ref[3]:
+                return f"through a {how}: exc={got[0]!r} pos={got[2]} remaining={got[3]} obj={json.dumps(got[1])[:200]}; through a reader over the bytes alone: exc={ref[0]!r} pos={ref[2]} remaining={ref[3]} obj={json.dumps(ref[1])[:200]}"
+        return ""
+
     def run_de(self, c):
         out = {"exc": "", "obj": NONE, "pos": None, "ch_end": None, "remaining": None, "calls": []}
         cls = self.top_class(c["prog"])
@@ -361,6 +384,8 @@ class World:
         out["remaining"] = r.remaining
         out["calls"] = self.calls
         out["modes"] = list(self.rmodes)
+        if c.get("dfuel", -1) == -1 and c.get("windows"):
+            out["window_differs"] = self.window_check(cls, c["data"], c.get("ch0", False), (out["exc"], out["obj"], out["pos"], out["remaining"]))
         return out
 
     def run_rt(self, c):
@@ -379,6 +404,7 @@ class World:
                 d["exc_msg"] = str(e)[:100]
             d["pos"] = r.position
             d["remaining"] = r.remaining
+            d["window_differs"] = self.window_check(cls, s["bytes"], False, (d["exc"], d["obj"], d["pos"], d["remaining"]))
             out["de"] = d
         return out
 
